@@ -159,14 +159,14 @@ Qed.
 
 (* the serialized Vec<u64> [2^64-1, 2^64-1, 0, 1, 5]: viewed as an integer vector at element 1 it has
    len = width = 2^64 - 1, an empty bit length, and one data word *)
-Definition f13_file : list N := [5; 2 ^ 64 - 1; 2 ^ 64 - 1; 0; 1; 5].
-Definition f13_view : imapper := mkim (2 ^ 64 - 1) (2 ^ 64 - 1) (mkrm 0 (mkms f13_file 4 1)).
+Definition f14_file : list N := [5; 2 ^ 64 - 1; 2 ^ 64 - 1; 0; 1; 5].
+Definition f14_view : imapper := mkim (2 ^ 64 - 1) (2 ^ 64 - 1) (mkrm 0 (mkms f14_file 4 1)).
 
 Theorem int_get_wide_refuted :
-  (forall m, view_new m TyInt f13_file 1 = VOk (VwInt f13_view)) /\
-  view_inside f13_file (VwInt f13_view) /\
-  im_get_w Release f13_view (2 ^ 64 - 2) = OOB SITE_LOW_SET /\
-  im_get_w Debug f13_view (2 ^ 64 - 2) = Panic POverflow.
+  (forall m, view_new m TyInt f14_file 1 = VOk (VwInt f14_view)) /\
+  view_inside f14_file (VwInt f14_view) /\
+  im_get_w Release f14_view (2 ^ 64 - 2) = OOB SITE_LOW_SET /\
+  im_get_w Debug f14_view (2 ^ 64 - 2) = Panic POverflow.
 Proof.
   split; [intros []; reflexivity|]. split; [split; [reflexivity|vm_compute; discriminate]|].
   split; vm_compute; reflexivity.
